@@ -50,10 +50,13 @@ Lemma apply_update_key_nodollar spec upd wi now k v d :
   if existsb (fun kv => starts_dollar (fst kv)) upd then Err EValue else
   let id := C02Replace.rep_id spec d in
   let merged := C02Replace.rep_merged upd (C02Replace.rep_base id) in
-  match assoc "_id" merged, id with
-  | Some now_id, Some i => if py_eq now_id i then Ok (VDoc merged, true) else Err EOpFail
-  | Some _, None => Err EOpFail
-  | None, _ => Err EKey
+  match id with
+  | Some i =>
+      match assoc "_id" merged with
+      | Some now_id => if py_eq now_id i then Ok (VDoc merged, true) else Err EOpFail
+      | None => Err EKey
+      end
+  | None => Ok (VDoc merged, true)
   end.
 Proof.
   intro H. unfold apply_update_key, updater_of.
@@ -65,17 +68,16 @@ Lemma rep_id_wf spec d i :
   WF spec -> WF d -> C02Replace.rep_id spec d = Some i -> WF i.
 Proof.
   unfold C02Replace.rep_id. intros Hs Hd H.
-  destruct spec as [| | | | | | |sfs|]; try discriminate.
-  destruct (assoc "_id" sfs) as [j|] eqn:Ea.
-  - inversion H; subst. eapply wf_doc_assoc; eassumption.
-  - destruct d as [| | | | | | |dfs|]; try discriminate. eapply wf_doc_assoc; eassumption.
+  destruct d as [| | | | | | |dfs|]; try discriminate.
+  destruct (assoc "_id" dfs) as [j|] eqn:Ea; [|discriminate].
+  destruct (is_null j); [discriminate|].
+  inversion H; subst. eapply wf_doc_assoc; eassumption.
 Qed.
 
 Lemma rep_base_wf spec d : WF spec -> WF d -> WF (VDoc (C02Replace.rep_base (C02Replace.rep_id spec d))).
 Proof.
   intros Hs Hd. unfold C02Replace.rep_base.
   destruct (C02Replace.rep_id spec d) as [i|] eqn:E; [|reflexivity].
-  destruct (is_null i); [reflexivity|].
   apply wf_doc_iff. split; [simpl; constructor; [intros []|constructor]|].
   constructor; [|constructor]. simpl. exact (rep_id_wf spec d i Hs Hd E).
 Qed.
@@ -95,8 +97,12 @@ Proof.
   intros Hs Hu Hd H.
   destruct u as [| | | | | | |ufs|]; try discriminate.
   destruct ufs as [|[k0 v0] rest].
-  - simpl in H. fold (C02Replace.rep_id spec d) in H. fold (C02Replace.rep_base (C02Replace.rep_id spec d)) in H.
-    inversion H; subst. apply rep_base_wf; assumption.
+  - simpl in H. inversion H; subst. clear H.
+    destruct d as [| | | | | | |dfs|]; try reflexivity.
+    destruct (assoc "_id" dfs) as [i|] eqn:Ea; [|reflexivity].
+    destruct (is_null i); [reflexivity|].
+    apply wf_doc_iff. split; [simpl; constructor; [intros []|constructor]|].
+    constructor; [|constructor]. simpl. eapply wf_doc_assoc; eassumption.
   - destruct (starts_dollar k0) eqn:Ek.
     + eapply chain_wf; [|exact Hd]. eapply apply_update_chain; [|exact Hu|exact Hd|exact H].
       simpl. rewrite Ek. reflexivity.
@@ -104,10 +110,11 @@ Proof.
       rewrite (apply_update_key_nodollar _ _ _ _ _ _ _ Ek) in H.
       destruct (existsb _ ((k0, v0) :: rest)); [discriminate|]. cbv zeta in H.
       pose proof (rep_merged_wf ((k0, v0) :: rest) _ (wf_doc_vals _ Hu) (rep_base_wf spec d Hs Hd)) as Hm.
-      destruct (assoc "_id" _) as [nid|]; [|discriminate].
-      destruct (C02Replace.rep_id spec d) as [i|]; [|discriminate].
-      destruct (py_eq nid i); [|discriminate].
-      simpl in H. inversion H; subst. exact Hm.
+      destruct (C02Replace.rep_id spec d) as [i|].
+      * destruct (assoc "_id" _) as [nid|]; [|discriminate].
+        destruct (py_eq nid i); [|discriminate].
+        simpl in H. inversion H; subst. exact Hm.
+      * simpl in H. inversion H; subst. exact Hm.
 Qed.
 
 (* ---------------------------------------------------------------- the upsert seed *)
